@@ -188,12 +188,42 @@ def install():
                 raise OSError("injected fault in write")
             return self._fh.write(data)
 
+    TMP = ".inline-snapshot.tmp"
+
+    def _base(path):
+        n = _short(path)
+        return n[:-len(TMP)] if n.endswith(TMP) else n
+
     def _open(file, mode="r", *a, **k):
         if "w" in mode:
-            if boundary("open_w", _short(file)):
+            if boundary("open_w", _base(file)):
                 raise OSError("injected fault in open for writing")
-            return _W(builtins.open(file, mode, *a, **k), _short(file))
+            return _W(builtins.open(file, mode, *a, **k), _base(file))
         if boundary("read", _short(file)):
             raise OSError("injected fault in open for reading")
         return builtins.open(file, mode, *a, **k)
     _rc.open = _open
+
+    # ---- shutil.copymode / os.replace as seen by _rewrite_code (the temporary file replaces the test file)
+    class _Proxy:
+        def __init__(self, real, **over):
+            self._real, self._over = real, over
+
+        def __getattr__(self, name):
+            if name in self._over:
+                return self._over[name]
+            return getattr(self._real, name)
+
+    def _copymode(src, dst, *a, **k):
+        if boundary("mode", _base(dst)):
+            raise OSError("injected fault in copymode")
+        return _real_shutil.copymode(src, dst, *a, **k)
+
+    def _replace(src, dst, *a, **k):
+        if boundary("replace", _base(dst)):
+            raise OSError("injected fault in os.replace")
+        return _real_os.replace(src, dst, *a, **k)
+    if hasattr(_rc, "shutil") and hasattr(_rc, "os"):
+        _real_shutil, _real_os = _rc.shutil, _rc.os
+        _rc.shutil = _Proxy(_real_shutil, copymode=_copymode)
+        _rc.os = _Proxy(_real_os, replace=_replace)
